@@ -1,2 +1,435 @@
+(** C04 — the backup location is sealed off.
+
+    "With a BackupFS assembled as documented (New/NewWithFS, or HiddenFS +
+    PrefixFS over one filesystem), no operation through the BackupFS can see,
+    list, create, modify, move or delete anything at or below the backup
+    location, and the backup location is never itself backed up (no recursive
+    growth).  Rollback (C01) keeps working for everything outside it even when
+    operations target ancestors of the backup location, such as RemoveAll or
+    Rename of a parent directory."
+
+    Setting.  [hiddenfs hs0 b] is NewHiddenFS(b, hs0...) over ANY filesystem
+    [b : fsapi] (a record of arbitrary state transformers - nothing is assumed
+    about it); it stores [hs := hidden_norm hs0] (cleaned, deepest first).
+    [wrap sp] adds the spy layer of the checks ([sp = Some tag]) or nothing
+    ([sp = None]).  The documented layering is [mkConfig None [q] q]:
+    base = spy (hiddenfs [q] osfs), backup = spy (prefixfs q osfs).
+    "Not invoked" is stated with restricted filesystems whose removed methods
+    stop the whole computation ([s_halt], like a crash point, never caught):
+      [s_ro b]          Lstat/Stat/Readlink/Open/OpenFile(O_RDONLY) of [b] only
+      [s_guard ok a]    every method of [a], on names accepted by [ok] only
+      [s_mguard ok b]   reads unrestricted, mutating methods on [ok] names only
+      [s_rm hs b]       reads, and Remove of shown names
+      [s_trap]          nothing at all
+    [shown hs p] = the HiddenFS check classifies [p] as not hidden.
+    If an operation over the restricted filesystems equals the operation over
+    the real ones, none of the removed methods was invoked.
+
+    What is proved (all closed, for every underlying filesystem):
+    (S1) [C04_api_sealed], [.._rename], [.._symlink]: every method of HiddenFS
+         on every spelling of a name lexically at/below a hidden path returns
+         the hidden error of C06 with the world unchanged - nothing reaches
+         [b].  [C04_listing_sealed], [C04_listing_exact]: a directory handle
+         obtained through HiddenFS (also through BackupFS.Open) never lists an
+         entry at/below a hidden path, whatever the directory contains.
+    (U)  [C04_universal_seal]: for EVERY operation of BackupFS (the twelve
+         mutating ones and the four reading ones), every argument and world:
+         no method of [b] and no method of the backup filesystem is invoked on
+         a name the check classifies as hidden.  [C04_rollback_seal]: Rollback
+         and ForceBackup invoke no mutating method of [b] on such a name.
+    (S2) [C04_backupfs_sealed], [.._rename], [.._rename_ancestor],
+         [.._symlink_target], [.._removeall], [.._error]: a mutating operation
+         whose RESOLVED name is lexically at/below the location does not
+         succeed, invokes NO mutating method of [b] at all, and hands only
+         shown names to the backup filesystem; without the spy layer its
+         result is the error of [try_backup] if that fails, else the hidden
+         error, in the world [try_backup] left.  RemoveAll is the exception in
+         the result: HiddenFS reports "not found", BackupFS.RemoveAll returns
+         nil, nothing is invoked on the backup filesystem.
+    (S3) [C04_never_backed_up]: [try_backup] on ANY name hands only shown names
+         to the backup filesystem - the location is never backed up into
+         itself.  [C04_try_backup_hidden], [.._unspied]: on a hidden name it
+         never reaches its copy stage; it records the name as "did not exist"
+         and backs up the ancestor directories.
+    (RA) [C04_hiddenfs_removeall_footprint]: HiddenFS.RemoveAll (of an ancestor
+         of the location, say) issues only reads and Remove of shown names on
+         [b].
+    Non-vacuity: the examples at the end (documented layering, concrete trees).
+
+    What is NOT proved / not true:
+    - "the filesystem is unchanged by a rejected operation" is false as stated:
+      a rejected operation on a hidden name still runs [try_backup], which
+      adds bookkeeping entries ([w_infos]) and backs up the not yet recorded,
+      not hidden ancestor directories of the name INTO the store (example
+      [C04_rejected_op_backs_up_ancestors]: Create("/a/bk/x") with location
+      /a/bk creates the directory /a/bk/a).  Rollback removes them.  For a
+      location directly below the root only "/" is such an ancestor and
+      nothing is created ([C04_sealed_history]).
+    - (S4) everything is lexical on the name HiddenFS is handed, for the
+      mutating operations of BackupFS the RESOLVED name ([real_path]).  A name
+      that reaches the location through a symlink or a physical ".." that the
+      resolution does not see is the recorded finding D9 (and D17 for
+      resolution through links inside link targets); the reading operations
+      are forwarded unresolved, so a symlink to the location shows its content
+      ([C04_resolved_name_caveat_D9]).  Not proved away.
+    - names on which the check itself fails (relative name against an absolute
+      hidden path, D10) are rejected with "hidden check failed"; they count as
+      not shown in (U).
+    - HiddenFS.RemoveAll walks the underlying tree including the hidden part:
+      it Lstats/opens/lists hidden entries of [b] (never modifies them); hence
+      (U) excludes Rollback, which [C04_rollback_seal] covers for mutations.
+    - the semantic counterpart for the OS filesystem ("every key at/below the
+      location keeps its node") is shown on the examples only; the general
+      statement needs the no-symlink/no-".." side condition of D9.
+    - "Rollback keeps working for everything outside" is C01 (partial); here
+      only the examples [C04_removeall_root_then_rollback],
+      [C04_removeall_parent_then_rollback], [C04_rename_parent_rejected]. *)
+From stdpp Require Import gmap.
+From BFS Require Import Layers.Call Layers.LayerSpec Layers.HiddenList.
 From BFS Require Import Backup.History.
-Example placeholder_C04 : True. Proof. exact I. Qed.
+From BFS Require Import Proofs.SealedFacts.
+
+Local Open Scope N_scope.
+
+(* ------------------------------------------------------------------ *)
+(** * (S1) the API of HiddenFS *)
+
+Theorem C04_api_sealed : forall hs0 b n,
+  let hs := hidden_norm hs0 in
+  let H := hiddenfs hs0 b in
+  comparable hs n -> below hs n ->
+  (forall w, a_lstat H n w = (MErr (ELayer EHiddenNotExist), w)) /\
+  (forall w, a_stat H n w = (MErr (ELayer EHiddenNotExist), w)) /\
+  (forall w, a_readlink H n w = (MErr (ELayer EHiddenNotExist), w)) /\
+  (forall w, a_open H n w = (MErr (ELayer EHiddenNotExist), w)) /\
+  (forall fl perm w, a_openfile H n fl perm w =
+     (MErr (ELayer (if o_creat fl then EHiddenPerm else EHiddenNotExist)), w)) /\
+  (forall w, a_create H n w = (MErr (ELayer EHiddenPerm), w)) /\
+  (forall perm w, a_mkdir H n perm w = (MErr (ELayer EHiddenPerm), w)) /\
+  (forall perm w, a_mkdirall H n perm w = (MErr (ELayer EHiddenPerm), w)) /\
+  (forall w, a_remove H n w = (MErr (ELayer EHiddenNotExist), w)) /\
+  (forall w, a_removeall H n w = (MErr (ELayer EHiddenNotExist), w)) /\
+  (forall m w, a_chmod H n m w = (MErr (ELayer EHiddenNotExist), w)) /\
+  (forall u g w, a_chown H n u g w = (MErr (ELayer EHiddenNotExist), w)) /\
+  (forall u g w, a_lchown H n u g w = (MErr (ELayer EHiddenNotExist), w)) /\
+  (forall t w, a_chtimes H n t w = (MErr (ELayer EHiddenNotExist), w)).
+Proof. exact api_sealed. Qed.
+Print Assumptions C04_api_sealed.
+
+Theorem C04_api_sealed_rename : forall hs0 b o n,
+  let hs := hidden_norm hs0 in
+  let H := hiddenfs hs0 b in
+  comparable hs o -> comparable hs n ->
+  (below hs o -> forall w, a_rename H o n w = (MErr (ELayer EHiddenNotExist), w)) /\
+  (~ below hs o -> below hs n -> forall w, a_rename H o n w = (MErr (ELayer EHiddenPerm), w)).
+Proof. exact api_sealed_rename. Qed.
+Print Assumptions C04_api_sealed_rename.
+
+(** [t] the target, [l] the location of the link; [to_abs_symlink t l] is the
+    target itself if absolute, else joined to the directory of [l] *)
+Theorem C04_api_sealed_symlink : forall hs0 b t l,
+  let hs := hidden_norm hs0 in
+  let H := hiddenfs hs0 b in
+  comparable hs l -> comparable hs (to_abs_symlink t l) ->
+  below hs l \/ below hs (to_abs_symlink t l) ->
+  forall w, a_symlink H t l w = (MErr (ELayer EHiddenPerm), w).
+Proof. exact api_sealed_symlink. Qed.
+Print Assumptions C04_api_sealed_symlink.
+
+(** no listing of a directory [d] opened through HiddenFS (directly, spied, or
+    via BackupFS.Open = OpenFile(O_RDONLY) on the base) shows an entry [e]
+    with [d/e] at/below a hidden path - whatever [b]'s directory contains *)
+Theorem C04_listing_sealed : forall hs0 b sp d fl perm w0 h w1 w l w',
+  let hs := hidden_norm hs0 in
+  let base := wrap sp (hiddenfs hs0 b) in
+  (a_open base d w0 = (MOk h, w1) \/ a_openfile base d fl perm w0 = (MOk h, w1)) ->
+  hreaddirnames h w = (MOk l, w') ->
+  forall e, In e l -> comparable hs (join2 d e) -> ~ below hs (join2 d e).
+Proof. exact listing_sealed. Qed.
+Print Assumptions C04_listing_sealed.
+
+(** ... and the listing is exactly the underlying listing filtered by the
+    check: the [visible] list of Props/C11.v (see [C11_visible_spec]) *)
+Theorem C04_listing_exact : forall hs0 b d w0 h w1 w l w',
+  let hs := hidden_norm hs0 in
+  a_open (hiddenfs hs0 b) d w0 = (MOk h, w1) -> fh_spy h = None ->
+  hreaddirnames h w = (MOk l, w') ->
+  exists names, fs_readdirnames (w_st w) (fh h) = Ok names /\ w' = w /\
+    l = filter (fun e => match is_hidden (join2 d e) hs with Some false => true | _ => false end) names.
+Proof. exact listing_exact. Qed.
+Print Assumptions C04_listing_exact.
+
+(* ------------------------------------------------------------------ *)
+(** * (U) the universal seal *)
+
+Theorem C04_universal_seal : forall hs0 b backup sp,
+  let hs := hidden_norm hs0 in
+  let base := wrap sp (hiddenfs hs0 b) in
+  let base_g := wrap sp (hiddenfs hs0 (s_guard (shown hs) b)) in
+  let backup_g := s_guard (shown hs) backup in
+  (forall n w, b_create base_g backup_g n w = b_create base backup n w) /\
+  (forall n perm w, b_mkdir base_g backup_g n perm w = b_mkdir base backup n perm w) /\
+  (forall n perm w, b_mkdirall base_g backup_g n perm w = b_mkdirall base backup n perm w) /\
+  (forall n fl perm w, b_openfile base_g backup_g n fl perm w = b_openfile base backup n fl perm w) /\
+  (forall n w, b_remove base_g backup_g n w = b_remove base backup n w) /\
+  (forall n w, b_removeall base_g backup_g n w = b_removeall base backup n w) /\
+  (forall o n w, b_rename base_g backup_g o n w = b_rename base backup o n w) /\
+  (forall t n w, b_symlink base_g backup_g t n w = b_symlink base backup t n w) /\
+  (forall n m w, b_chmod base_g backup_g n m w = b_chmod base backup n m w) /\
+  (forall n u g w, b_chown base_g backup_g n u g w = b_chown base backup n u g w) /\
+  (forall n u g w, b_lchown base_g backup_g n u g w = b_lchown base backup n u g w) /\
+  (forall n t w, b_chtimes base_g backup_g n t w = b_chtimes base backup n t w) /\
+  (forall n w, b_lstat base_g n w = b_lstat base n w) /\
+  (forall n w, b_stat base_g n w = b_stat base n w) /\
+  (forall n w, b_readlink base_g n w = b_readlink base n w) /\
+  (forall n w, b_open base_g backup_g n w = b_open base backup n w).
+Proof. exact universal_seal_hiddenfs. Qed.
+Print Assumptions C04_universal_seal.
+
+Theorem C04_rollback_seal : forall hs0 b backup sp,
+  let hs := hidden_norm hs0 in
+  let base_g := wrap sp (hiddenfs hs0 (s_mguard (shown hs) b)) in
+  let base := wrap sp (hiddenfs hs0 b) in
+  (forall w, b_rollback base_g backup w = b_rollback base backup w) /\
+  (forall n w, b_force_backup base_g backup n w = b_force_backup base backup n w).
+Proof. exact rollback_seal_hiddenfs. Qed.
+Print Assumptions C04_rollback_seal.
+
+(* ------------------------------------------------------------------ *)
+(** * (S2) operations whose resolved name is at/below the location *)
+
+(** [sealed_run m_restr m w]: [m_restr w = m w] and [m w] is not a success *)
+Theorem C04_backupfs_sealed : forall hs0 b backup sp n w rn w1,
+  let hs := hidden_norm hs0 in
+  let base := wrap sp (hiddenfs hs0 b) in
+  let base_ro := wrap sp (hiddenfs hs0 (s_ro b)) in
+  let backup_g := s_guard (shown hs) backup in
+  real_path base n w = (MOk rn, w1) -> comparable hs rn -> below hs rn ->
+  sealed_run (b_create base_ro backup_g n) (b_create base backup n) w /\
+  (forall perm, sealed_run (b_mkdir base_ro backup_g n perm) (b_mkdir base backup n perm) w) /\
+  (forall perm, sealed_run (b_mkdirall base_ro backup_g n perm) (b_mkdirall base backup n perm) w) /\
+  (forall fl perm, fl <> 0 ->
+     sealed_run (b_openfile base_ro backup_g n fl perm) (b_openfile base backup n fl perm) w) /\
+  sealed_run (b_remove base_ro backup_g n) (b_remove base backup n) w /\
+  (forall m, sealed_run (b_chmod base_ro backup_g n m) (b_chmod base backup n m) w) /\
+  (forall u g, sealed_run (b_chown base_ro backup_g n u g) (b_chown base backup n u g) w) /\
+  (forall u g, sealed_run (b_lchown base_ro backup_g n u g) (b_lchown base backup n u g) w) /\
+  (forall t, sealed_run (b_chtimes base_ro backup_g n t) (b_chtimes base backup n t) w) /\
+  (forall t, sealed_run (b_symlink base_ro backup_g t n) (b_symlink base backup t n) w).
+Proof. exact backupfs_sealed_lex. Qed.
+Print Assumptions C04_backupfs_sealed.
+
+(** without the spy layer: the exact result ([after_tb]: the error/halt of
+    [try_backup] if it does not get through, else the given result in the
+    world [try_backup] left; [ops_error] lists, per operation, the hidden
+    error of the method: ErrHiddenPermission for Create/Mkdir/MkdirAll/
+    OpenFile(O_CREATE)/Symlink, ErrHiddenNotExist for the others) *)
+Theorem C04_backupfs_sealed_error : forall hs0 b backup n w rn w1,
+  let hs := hidden_norm hs0 in
+  let base := hiddenfs hs0 b in
+  real_path base n w = (MOk rn, w1) -> comparable hs rn -> below hs rn ->
+  ops_error hs base backup n w rn w1.
+Proof. exact backupfs_sealed_error_lex. Qed.
+Print Assumptions C04_backupfs_sealed_error.
+
+Theorem C04_backupfs_sealed_rename : forall hs0 b backup sp o n w ro w1 rn w2,
+  let hs := hidden_norm hs0 in
+  let base := wrap sp (hiddenfs hs0 b) in
+  let base_ro := wrap sp (hiddenfs hs0 (s_ro b)) in
+  let backup_g := s_guard (shown hs) backup in
+  real_path base o w = (MOk ro, w1) -> real_path base n w1 = (MOk rn, w2) ->
+  (comparable hs ro /\ below hs ro) \/ (comparable hs rn /\ below hs rn) ->
+  sealed_run (b_rename base_ro backup_g o n) (b_rename base backup o n) w.
+Proof. exact backupfs_sealed_rename_lex. Qed.
+Print Assumptions C04_backupfs_sealed_rename.
+
+(** "Rename of a parent directory": the location cannot be moved away *)
+Theorem C04_backupfs_sealed_rename_ancestor : forall hs0 b backup sp o n w ro w1 rn w2,
+  let hs := hidden_norm hs0 in
+  let base := wrap sp (hiddenfs hs0 b) in
+  let base_ro := wrap sp (hiddenfs hs0 (s_ro b)) in
+  let backup_g := s_guard (shown hs) backup in
+  real_path base o w = (MOk ro, w1) -> real_path base n w1 = (MOk rn, w2) ->
+  comparable hs ro -> comparable hs rn -> above_hidden hs ro ->
+  sealed_run (b_rename base_ro backup_g o n) (b_rename base backup o n) w.
+Proof. exact backupfs_sealed_rename_ancestor_lex. Qed.
+Print Assumptions C04_backupfs_sealed_rename_ancestor.
+
+Theorem C04_backupfs_sealed_symlink_target : forall hs0 b backup sp t n w rn w1,
+  let hs := hidden_norm hs0 in
+  let base := wrap sp (hiddenfs hs0 b) in
+  let base_ro := wrap sp (hiddenfs hs0 (s_ro b)) in
+  let backup_g := s_guard (shown hs) backup in
+  real_path base n w = (MOk rn, w1) ->
+  comparable hs (to_abs_symlink t rn) -> below hs (to_abs_symlink t rn) ->
+  sealed_run (b_symlink base_ro backup_g t n) (b_symlink base backup t n) w.
+Proof. exact backupfs_sealed_symlink_target_lex. Qed.
+Print Assumptions C04_backupfs_sealed_symlink_target.
+
+Theorem C04_backupfs_sealed_removeall : forall hs0 b backup sp n w rn w1,
+  let hs := hidden_norm hs0 in
+  let base := wrap sp (hiddenfs hs0 b) in
+  let base_ro := wrap sp (hiddenfs hs0 (s_ro b)) in
+  real_path base n w = (MOk rn, w1) -> comparable hs rn -> below hs rn ->
+  b_removeall base_ro s_trap n w = b_removeall base backup n w /\
+  (sp = None -> b_removeall base backup n w = (MOk tt, w1)).
+Proof. exact backupfs_sealed_removeall_lex. Qed.
+Print Assumptions C04_backupfs_sealed_removeall.
+
+(* ------------------------------------------------------------------ *)
+(** * (S3) the location is never backed up *)
+
+Theorem C04_never_backed_up : forall hs0 b backup sp p w,
+  let hs := hidden_norm hs0 in
+  let base := wrap sp (hiddenfs hs0 b) in
+  try_backup base (s_guard (shown hs) backup) p w = try_backup base backup p w.
+Proof. exact try_backup_never_hidden. Qed.
+Print Assumptions C04_never_backed_up.
+
+Theorem C04_try_backup_hidden : forall hs0 b backup sp rn w,
+  let hs := hidden_norm hs0 in
+  let base := wrap sp (hiddenfs hs0 b) in
+  comparable hs rn -> below hs rn ->
+  try_backup base backup rn w =
+  (r <- backup_required base rn ;;
+   backup_dirs base backup (match fst r with
+                            | Some fi => if is_dir_info fi then rn else dir rn
+                            | None => dir rn
+                            end)) w.
+Proof. exact try_backup_hidden_lex. Qed.
+Print Assumptions C04_try_backup_hidden.
+
+Theorem C04_try_backup_hidden_unspied : forall hs0 b backup rn w,
+  let hs := hidden_norm hs0 in
+  let base := hiddenfs hs0 b in
+  comparable hs rn -> below hs rn -> w_infos w !! rn = None ->
+  try_backup base backup rn w = (set_info_if_new rn None ;;; backup_dirs base backup (dir rn)) w.
+Proof. exact try_backup_hidden_unspied_lex. Qed.
+Print Assumptions C04_try_backup_hidden_unspied.
+
+(* ------------------------------------------------------------------ *)
+(** * (RA) HiddenFS.RemoveAll *)
+
+Theorem C04_hiddenfs_removeall_footprint : forall hs0 b name w,
+  let hs := hidden_norm hs0 in
+  a_removeall (hiddenfs hs0 (s_rm hs b)) name w = a_removeall (hiddenfs hs0 b) name w.
+Proof. exact hiddenfs_removeall_footprint. Qed.
+Print Assumptions C04_hiddenfs_removeall_footprint.
+
+(* ------------------------------------------------------------------ *)
+(** * the documented layering *)
+
+(** [ops_sealed base_r backup_r base backup n w] is the conjunction of
+    [C04_backupfs_sealed] *)
+Theorem C04_documented_sealed : forall q n w rn w1,
+  cleaned q ->
+  let c := mkConfig None [q] q in
+  let base_ro := spy TBase (hiddenfs [q] (s_ro osfs)) in
+  let backup_g := s_guard (shown [q]) (cfg_backup c) in
+  real_path (cfg_base c) n w = (MOk rn, w1) -> comparable [q] rn -> below [q] rn ->
+  ops_sealed base_ro backup_g (cfg_base c) (cfg_backup c) n w.
+Proof. exact documented_sealed. Qed.
+Print Assumptions C04_documented_sealed.
+
+(** [ops_agree base1 backup1 base2 backup2] is the conjunction of
+    [C04_universal_seal] *)
+Theorem C04_documented_universal : forall q,
+  cleaned q ->
+  let c := mkConfig None [q] q in
+  ops_agree (spy TBase (hiddenfs [q] (s_guard (shown [q]) osfs))) (s_guard (shown [q]) (cfg_backup c))
+            (cfg_base c) (cfg_backup c).
+Proof. exact documented_universal. Qed.
+Print Assumptions C04_documented_universal.
+
+(* ------------------------------------------------------------------ *)
+(** * non-vacuity: concrete trees in the documented layering *)
+Import SealedExamples.
+
+(** tree { /, /bk/, /bk/x, /f, /d/, /d/g }, location /bk; [hp]/[hn] are the
+    results ErrHiddenPermission / ErrHiddenNotExist *)
+Example C04_sealed_history :
+  let '(rs, w') := run_history c4
+    [OCreate p_bkx [9]; OMkdir p_bkn 493; OMkdirAll p_bkn 493; OOpenWrite p_bkx 1 420 [9];
+     ORemove p_bk; ORemoveAll p_bk; ORename p_bk p_y; OSymlink p_f p_bkn; OSymlink p_bkx p_l;
+     OChmod p_bkx 511; OChown p_bkx 1 1; OLchown p_bkx 1 1; OChtimes p_bkx 77;
+     OStat p_bk; OLstat p_bkx; OReadlink p_bkx; ORead p_bkx; OReaddir p_bk; OReaddir p_root] w4 in
+  rs = [hp; hp; hp; hn; hn; MOk ObUnit; hn; hp; hp; hn; hn; hn; hn; hn; hn; hn; hn; hn;
+        MOk (ObNames [[100]; [102]])] /\
+  dump_fs w' = dump_fs w4.
+Proof. exact sealed_history. Qed.
+Print Assumptions C04_sealed_history.
+
+Example C04_removeall_root_spares_location :
+  let '(rs, w') := run_history c4 [ORemoveAll p_root] w4 in
+  rs = [MErr EBUSY] /\
+  st_fs (w_st w') !! [[102]] = None /\ st_fs (w_st w') !! [[100]] = None /\
+  st_fs (w_st w') !! [[100];[103]] = None /\
+  st_fs (w_st w') !! [[98;107];[120]] = st_fs (w_st w4) !! [[98;107];[120]] /\
+  is_Some (st_fs (w_st w') !! [[98;107]]).
+Proof. exact removeall_root_spares_location. Qed.
+Print Assumptions C04_removeall_root_spares_location.
+
+Example C04_removeall_root_then_rollback :
+  let '(rs, w') := run_history c4 [ORemoveAll p_root; ORollback] w4 in
+  rs = [MErr EBUSY; MOk ObUnit] /\
+  map fst (dump_fs w') = map fst (dump_fs w4) /\
+  st_fs (w_st w') !! [[102]] = st_fs (w_st w4) !! [[102]] /\
+  st_fs (w_st w') !! [[100];[103]] = st_fs (w_st w4) !! [[100];[103]] /\
+  st_fs (w_st w') !! [[98;107];[120]] = st_fs (w_st w4) !! [[98;107];[120]].
+Proof. exact removeall_root_then_rollback. Qed.
+Print Assumptions C04_removeall_root_then_rollback.
+
+Example C04_hiddenfs_removeall_root :
+  let '(r, w') := a_removeall (hiddenfs [p_bk] osfs) p_root w4 in
+  r = MOk tt /\
+  map fst (dump_fs w') = [[]; [[98;107];[120]]; [[98;107]]] /\
+  st_fs (w_st w') !! [[98;107];[120]] = st_fs (w_st w4) !! [[98;107];[120]] /\
+  st_fs (w_st w') !! [[98;107]] = st_fs (w_st w4) !! [[98;107]].
+Proof. exact hiddenfs_removeall_root. Qed.
+Print Assumptions C04_hiddenfs_removeall_root.
+
+(** tree { /, /a/, /a/bk/, /a/bk/x, /a/f }, location /a/bk *)
+Example C04_rejected_op_backs_up_ancestors :
+  let '(rs, w') := run_history c5 [OCreate p_abkx [9]] w5 in
+  rs = [hp] /\
+  st_fs (w_st w5) !! [[97];[98;107];[97]] = None /\
+  is_Some (st_fs (w_st w') !! [[97];[98;107];[97]]) /\
+  st_fs (w_st w') !! [[97];[98;107];[120]] = st_fs (w_st w5) !! [[97];[98;107];[120]] /\
+  (let '(rs2, w'') := run_history c5 [OCreate p_abkx [9]; ORollback] w5 in
+   rs2 = [hp; MOk ObUnit] /\ map fst (dump_fs w'') = map fst (dump_fs w5)).
+Proof. exact rejected_op_backs_up_ancestors. Qed.
+Print Assumptions C04_rejected_op_backs_up_ancestors.
+
+Example C04_rename_parent_rejected :
+  let '(rs, w') := run_history c5 [ORename p_a p_b; ORollback] w5 in
+  rs = [hp; MOk ObUnit] /\ map fst (dump_fs w') = map fst (dump_fs w5) /\
+  st_fs (w_st w') !! [[97];[102]] = st_fs (w_st w5) !! [[97];[102]] /\
+  st_fs (w_st w') !! [[97];[98;107];[120]] = st_fs (w_st w5) !! [[97];[98;107];[120]].
+Proof. exact rename_parent_rejected. Qed.
+Print Assumptions C04_rename_parent_rejected.
+
+Example C04_removeall_parent_then_rollback :
+  (let '(rs, w') := run_history c5 [ORemoveAll p_a] w5 in
+   rs = [MErr ENOTEMPTY] /\ st_fs (w_st w') !! [[97];[102]] = None /\
+   st_fs (w_st w') !! [[97];[98;107];[120]] = st_fs (w_st w5) !! [[97];[98;107];[120]]) /\
+  (let '(rs, w') := run_history c5 [ORemoveAll p_a; ORollback] w5 in
+   rs = [MErr ENOTEMPTY; MOk ObUnit] /\ map fst (dump_fs w') = map fst (dump_fs w5) /\
+   st_fs (w_st w') !! [[97];[102]] = st_fs (w_st w5) !! [[97];[102]] /\
+   st_fs (w_st w') !! [[97];[98;107];[120]] = st_fs (w_st w5) !! [[97];[98;107];[120]]).
+Proof. exact removeall_parent_then_rollback. Qed.
+Print Assumptions C04_removeall_parent_then_rollback.
+
+(** the caveat (S4, finding D9): tree of [w4] without /d, plus /l -> /bk *)
+Example C04_resolved_name_caveat_D9 :
+  let '(rs, w') := run_history c4 [ORead p_lx; OReaddir p_l; ORealPath p_lx; OCreate p_lx [9]] w6 in
+  rs = [MOk (ObData [1;2]); MOk (ObNames [[120]]); MOk (ObStr p_bkx); hp] /\
+  dump_fs w' = dump_fs w6.
+Proof. exact resolved_name_caveat_D9. Qed.
+Print Assumptions C04_resolved_name_caveat_D9.
+
+(** the hypotheses of the theorems are satisfiable: "/bk/x" is at/below "/bk" *)
+Example C04_hypotheses_hold :
+  cleaned p_bk /\ comparable [p_bk] p_bkx /\ below [p_bk] p_bkx /\ hid [p_bk] p_bkx /\
+  real_path (cfg_base c4) p_bkx w4 = (MOk p_bkx, snd (real_path (cfg_base c4) p_bkx w4)).
+Proof. exact hypotheses_hold. Qed.
+Print Assumptions C04_hypotheses_hold.
